@@ -19,6 +19,7 @@ mod c14;
 mod c15;
 mod c16;
 mod c17;
+mod c18;
 mod c20;
 mod plonkm;
 mod recm;
@@ -108,6 +109,7 @@ fn main() {
         "C13" => c13::run(&ctx),
         "C16" => c16::run(&ctx),
         "C17" => c17::run(&ctx),
+        "C18" => c18::run(&ctx),
         "C20" => c20::run(&ctx),
         "C14" => c14::run(&ctx),
         "C15" => c15::run(&ctx),
